@@ -223,7 +223,7 @@ def concrete_sequences(E, cfg):
     mode = E.choice('mode', ['ROUND_HALF_EVEN', 'ROUND_HALF_UP', 'ROUND_FLOOR'])
     C.set_default_mode(mode)
     case = E.choice('case', ['same-list-changed', 'same-list-extended', 'quantized-ratios-pieces', 'quantized-ratios-yen',
-                             'quantized-ratios-bytes', 'money-ratios-two-currencies'])
+                             'quantized-ratios-bytes', 'money-ratios-two-currencies', 'fraction-ratios'])
     recv = E.choice('recv', ['money', 'dv', 'mass'])
     cls, unit, quantum = _receiver(E, recv)
     amounts = {'money': ['12.70', '100', '0.07'], 'dv': ['10', '0.125'], 'mass': ['10', '1/7']}[recv]
@@ -244,6 +244,20 @@ def concrete_sequences(E, cfg):
         _obligations(E, q, before, [Fraction(k) for k in key], portions, rem, quantum, True, mode, cls, unit, info + ['second'])
         portions, rem = q.allocate(tuple(key), False)
         _obligations(E, q, before, [Fraction(k) for k in key], portions, rem, quantum, False, mode, cls, unit, info + ['tuple'])
+        return
+    if case == 'fraction-ratios':
+        # ratios whose total has no finite decimal expansion
+        vecs = [[Fraction(1, 3), Fraction(1, 7)], [Fraction(1, 3), Decimal('0.5'), 2], [Fraction(2, 7)], [Fraction(1, 9)] * 4,
+                [Fraction(1, 3), Fraction(2, 3)]]
+        vec = E.choice('ratios', vecs)
+        for disperse in (True, False):
+            try:
+                portions, rem = q.allocate(list(vec), disperse)
+            except Exception as e:
+                E.fail('allocation-by-fraction-ratios', key='alloc-seq:fraction-ratios:%s' % type(e).__name__, info=info + [str(vec)])
+                continue
+            _obligations(E, q, before, [Fraction(v) for v in vec], portions, rem, quantum, disperse, mode, cls, unit,
+                         info + [[str(v) for v in vec], disperse])
         return
     if case == 'money-ratios-two-currencies':
         # ratios in two currencies, made comparable by a registered money converter (1 EUR = 1.25 USD)
